@@ -36,7 +36,7 @@ pub fn name_pool(rng: &mut Rng, valid_only: bool) -> Vec<String> {
     }
     // case variants of some
     for i in 0..pool.len().min(4) {
-        let v = pool[i].chars().map(|c| if rng.chance(1, 2) { cfb::verif::uppercase_char(c) } else { c }).collect::<String>();
+        let v = pool[i].chars().map(|c| if rng.chance(1, 2) { crate::names::spec_upper(c) } else { c }).collect::<String>();
         if v != pool[i] {
             pool.push(v);
         }
@@ -110,7 +110,7 @@ pub fn gen_path(rng: &mut Rng, model: &RefModel, pool: &[String], cfg: &GenCfg, 
     let mut canon = canon;
     if !canon.is_empty() && rng.chance(1, 6) {
         let i = rng.below(canon.len() as u64) as usize;
-        canon[i] = canon[i].chars().map(|c| if rng.chance(1, 2) { cfb::verif::uppercase_char(c) } else { c }).collect();
+        canon[i] = canon[i].chars().map(|c| if rng.chance(1, 2) { crate::names::spec_upper(c) } else { c }).collect();
     }
     if rng.chance(1, 60) {
         return "../x".to_string();
